@@ -396,7 +396,7 @@ def stream_public(ctx, consts, fmts, alive):
         if f.granular and f.codec in (0x01, 0x05, 0x10, 0x11, 0x03) and ch == 1:
             frames = rng.choice([1, 7, 63, 301])    # odd data length: a pad byte follows the audio (WAV, AIFF) — where sf_read_raw's clamp differed before d9097b4
         if f.codec == 0x20 and f.major in (0x01, 0x13):
-            frames = rng.choice([640, 1280])        # WAV/GSM: an odd number of 65-byte blocks makes the pad byte an extra block (KF-WAV-GSM-PAD, C04/C11): what follows the file is then decoded
+            frames = rng.choice([320, 640, 960, 1280])   # WAV/GSM: odd and even numbers of 65-byte blocks (the pad byte of an odd count was an extra block before the repair of KF-WAV-GSM-PAD)
         if f.codec == 0x21:
             frames = rng.choice([4, 64, 400])       # OKI/VOX: odd item counts overrun the caller's buffer (KF-VOX-ODD, C05) on every route alike
         vals = gen_values(rng, frames * ch)
